@@ -100,6 +100,7 @@ type c02Cfg struct {
 	Trusted uint32 `json:"trusted,omitempty"` // TrustedHeader index (hash taken from the source chain)
 	NoVerify bool  `json:"noverify,omitempty"` // VerifyTransactions off
 	Race     bool  `json:"race,omitempty"`     // a second goroutine flushes continuously during synchronisation (batch boundaries between single Puts)
+	Step     bool   `json:"step,omitempty"`    // state jump: the block additions of the synchronisation run under c02StepCache (a virtual flush before every write to the shared cache)
 	MTB      uint32 `json:"mtb,omitempty"`     // MaxTraceableBlocks (without RemoveUntraceableBlocks), MaxValidUntilBlockIncrement 3
 	Slow     bool  `json:"slow,omitempty"`     // with Race: slow-store mode (c02gate.go) - a write is let through only when every node goroutine is parked, so each flush stays in flight while the synchronising goroutine runs ahead
 }
